@@ -275,25 +275,186 @@ def trace_check_parallel(trace_tla, cfg, wd, trace_file, shards=8, timeout=900, 
     return mism, {"distinct": states, "cases": ncases}
 
 
-def run_driver(binary, args, stdin_path=None, stdout_path=None, timeout=1800, env=None):
+class DriverCrash(ToolError):
+    """The driver process (the code under test runs inside it) died of a signal or stopped making
+    progress.  That is data about the implementation, not a tool error: `check` narrows it to an
+    input and reports it as a violation (see narrow_crash)."""
+
+    def __init__(self, kind, binary, args, rc, stderr, stdin_path, env, stall):
+        super().__init__(f"driver {kind} rc={rc}: {binary} {' '.join(args)}")
+        self.kind, self.binary, self.args, self.rc = kind, binary, args, rc
+        self.stderr, self.stdin_path, self.env, self.stall = stderr, stdin_path, env, stall
+
+
+def _sizes(paths):
+    t = 0
+    for p in paths:
+        try:
+            t += os.path.getsize(p)
+        except OSError:
+            pass
+    return t
+
+
+def _spawn(binary, args, stdin_path, stdout_path, timeout, env, stall):
+    """Run the driver; returns (kind, rc, stdout, stderr) with kind in ok|exit|signal|timeout|stalled.
+    `stall`: seconds without growth of any watched output file (stdout file, --trace file) after which
+    a still-running driver is taken for hung; None = only the overall timeout."""
+    import signal as _sig
+    import tempfile
+    import time as _t
     cmd = [os.path.join(BIN, binary)] + args
     e = dict(os.environ)
     e.update(env or {})
+    watched = [stdout_path] if stdout_path else []
+    for i, a in enumerate(args):
+        if a in ("--trace", "--out") and i + 1 < len(args):
+            watched.append(args[i + 1])
     fin = open(stdin_path) if stdin_path else subprocess.DEVNULL
-    fout = open(stdout_path, "w") if stdout_path else subprocess.PIPE
+    fout = open(stdout_path, "w") if stdout_path else tempfile.TemporaryFile("w+")
+    ferr = tempfile.TemporaryFile("w+")
+    kind = "ok"
     try:
-        p = subprocess.run(cmd, stdin=fin, stdout=fout, stderr=subprocess.PIPE, timeout=timeout, env=e, text=True)
-    except subprocess.TimeoutExpired:
-        raise ToolError(f"driver timeout: {binary} {' '.join(args)}")
+        p = subprocess.Popen(cmd, stdin=fin, stdout=fout, stderr=ferr, env=e, text=True)
+        t0 = _t.time()
+        last_size, last_change = -1, t0
+        while True:
+            try:
+                p.wait(timeout=2)
+                break
+            except subprocess.TimeoutExpired:
+                pass
+            now = _t.time()
+            if now - t0 > timeout:
+                kind = "timeout"
+            elif stall and watched:
+                sz = _sizes(watched)
+                if sz != last_size:
+                    last_size, last_change = sz, now
+                elif now - last_change > stall:
+                    kind = "stalled"
+            if kind != "ok":
+                p.kill()
+                p.wait()
+                break
+        rc = p.returncode
+        if kind == "ok" and rc != 0:
+            kind = "signal" if rc < 0 else "exit"
+        ferr.seek(0)
+        err = ferr.read()[-6000:]
+        out = None
+        if not stdout_path:
+            fout.seek(0)
+            out = fout.read()
+        return kind, rc, out, err
     finally:
         if stdin_path:
             fin.close()
-        if stdout_path:
-            fout.close()
-    if p.returncode != 0:
-        log(p.stderr[-4000:])
-        raise ToolError(f"driver failed rc={p.returncode}: {binary} {' '.join(args)}")
-    return p.stdout if not stdout_path else None
+        fout.close()
+        ferr.close()
+
+
+# a driver that is alive but has not extended any of its output files for this long is taken for hung
+# (cases take milliseconds; the slowest silent phase of any driver on the unchanged tree is well under
+# a minute even on a loaded machine).  A hang only becomes a violation after narrow_crash reproduced it.
+STALL = int(os.environ.get("VERIF_STALL", "900"))
+
+
+def run_driver(binary, args, stdin_path=None, stdout_path=None, timeout=1800, env=None, stall=None):
+    kind, rc, out, err = _spawn(binary, args, stdin_path, stdout_path, timeout, env, stall or STALL)
+    if kind == "ok":
+        return out if not stdout_path else None
+    log(err[-4000:])
+    if kind == "exit":
+        # a Rust panic outside catch_unwind exits 101; stack overflow / abort / segfault is a signal
+        raise ToolError(f"driver failed rc={rc}: {binary} {' '.join(args)}")
+    raise DriverCrash(kind, binary, args, rc, err, stdin_path, env, stall or STALL)
+
+
+def narrow_crash(c, outdir, probe_stall=90):
+    """Reproduce a driver death/hang and narrow it to the shortest failing prefix of its input (and to
+    the single last case if that fails alone).  Returns (confirmed, detail).  A death by signal is
+    reported even if it cannot be narrowed; a hang only if a re-run shows it again."""
+    import signal as _sig
+    import shutil
+    os.makedirs(outdir, exist_ok=True)
+    try:
+        signame = _sig.Signals(-c.rc).name if c.rc and c.rc < 0 else ""
+    except ValueError:
+        signame = str(c.rc)
+    detail = {"driver": c.binary, "args": c.args, "kind": c.kind, "signal": signame, "stderr_tail": c.stderr[-1500:],
+              "env": c.env or {}}
+    scratch = os.path.join(outdir, "narrow")
+    os.makedirs(scratch, exist_ok=True)
+
+    def args_for(tag):
+        a = list(c.args)
+        for i, x in enumerate(a):
+            if x in ("--trace", "--out") and i + 1 < len(a):
+                a[i + 1] = os.path.join(scratch, f"{tag}.trace")
+        return a
+
+    import time as _t
+
+    def fails(lines, tag, stall=probe_stall, timeout=None):
+        ip = os.path.join(scratch, f"{tag}.in")
+        with open(ip, "w") as f:
+            f.writelines(lines)
+        t0 = _t.time()
+        kind, rc, _o, _e = _spawn(c.binary, args_for(tag), ip, os.path.join(scratch, f"{tag}.out"),
+                                  timeout or (c.stall * 2 + 600), c.env, stall)
+        return kind in ("signal", "timeout", "stalled"), _t.time() - t0
+
+    if not c.stdin_path:
+        # a recording run: deterministic in its arguments; run it once more
+        kind, rc, _o, _e = _spawn(c.binary, args_for("rerun"), None, os.path.join(scratch, "rerun.out"),
+                                  c.stall * 2 + 600, c.env, c.stall)
+        again = kind in ("signal", "timeout", "stalled")
+        detail["reproduced"] = again
+        shutil.rmtree(scratch, ignore_errors=True)
+        return (again or c.kind == "signal"), detail
+
+    lines = open(c.stdin_path).readlines()
+    bad, _k = fails(lines, "all", stall=c.stall)
+    detail["reproduced"] = bad
+    if not bad:
+        shutil.rmtree(scratch, ignore_errors=True)
+        return c.kind == "signal", detail
+    lo, hi = 1, len(lines)          # shortest failing prefix length in [lo, hi]
+    while lo < hi:
+        mid = (lo + hi) // 2
+        b, _k = fails(lines[:mid], f"p{mid}")
+        if b:
+            hi = mid
+        else:
+            lo = mid + 1
+    single, _k = fails(lines[hi - 1:hi], "single")
+    culprit = lines[hi - 1:hi] if single else lines[:hi]
+    if c.kind != "signal":
+        # a hang counts only if it is out of all proportion: the input without its last case completes
+        # in t, the input with it does not complete in 4t + 2 min (no output-stall heuristics here)
+        ok_prev, t_prev = (False, 0.0) if len(culprit) == 1 else fails(culprit[:-1], "prev", stall=None)
+        if len(culprit) > 1 and ok_prev:
+            detail["reproduced"] = False
+            shutil.rmtree(scratch, ignore_errors=True)
+            return False, detail
+        still, t_bad = fails(culprit, "confirm", stall=None, timeout=4 * t_prev + 120)
+        detail["confirm"] = {"without_last_case_s": round(t_prev, 1), "with_last_case_gave_up_after_s": round(t_bad, 1)}
+        if not still:
+            detail["reproduced"] = False
+            shutil.rmtree(scratch, ignore_errors=True)
+            return False, detail
+    cp = os.path.join(outdir, "crash_input.ndjson")
+    with open(cp, "w") as f:
+        f.writelines(culprit)
+    detail.update({"input": cp, "input_cases": len(culprit), "prefix_length": hi,
+                   "replay_cmd": f"{os.path.join(BIN, c.binary)} {' '.join(c.args)} < {cp}"})
+    try:
+        detail["case"] = json.loads(culprit[-1])
+    except Exception:
+        detail["case"] = culprit[-1][:2000]
+    shutil.rmtree(scratch, ignore_errors=True)
+    return True, detail
 
 
 def write_ndjson(path, objs):
